@@ -25,9 +25,10 @@ DESCRIPTIONS = ['Represent something "quoted".', 'Represent a text that ends wit
                 "Contains %s {braces} ${dollar}.", "Contains a hash #: here."]
 
 
-def build_model(descriptions: Any = None) -> str:
+def build_model(descriptions: Any = None, values: Any = None) -> str:
     lines: List[str] = []
     DESCRIPTIONS = descriptions if descriptions is not None else globals()["DESCRIPTIONS"]
+    VALUES = values if values is not None else globals()["VALUES"]
     for k, v in enumerate(VALUES):
         lines.append(f"class Enum_{k}(Enum):")
         lines.append(f"    {DESCRIPTIONS[k % len(DESCRIPTIONS)]!r}")
